@@ -167,11 +167,14 @@ theorem invoke_marks_other {j : Nat} {tj : Task} (htj : pr.tasks[j]? = some tj) 
   · rw [(invoke_readOnly Cfg.fixed H pr rfl rfl rfl j m e s hro).1]
   · cases m with
     | run =>
-      rw [invoke_run Cfg.fixed H pr htj]
-      split
-      · exact isUpToDate_marks_other H pr tj e.now s x hx
-      · rw [runBody_marks_other Cfg.fixed H pr j tj e _ x hx]
-        exact isUpToDate_marks_other H pr tj e.now s x hx
+      cases hce : checkErr tj e s.files with
+      | true => rw [invoke_run_err Cfg.fixed H pr htj e s hce]
+      | false =>
+        rw [invoke_run Cfg.fixed H pr htj e s hce]
+        split
+        · exact isUpToDate_marks_other H pr tj e.now s x hx
+        · rw [runBody_marks_other Cfg.fixed H pr j tj e _ x hx]
+          exact isUpToDate_marks_other H pr tj e.now s x hx
     | force =>
       rw [invoke_force Cfg.fixed H pr htj]
       exact runBody_marks_other Cfg.fixed H pr j tj e s x hx
@@ -194,12 +197,15 @@ theorem invoke_log (j : Nat) (m : Mode) (e : Env) (s : State) :
     | some tj =>
       cases m with
       | run =>
-        rw [invoke_run Cfg.fixed H pr htj]
-        split
-        · left; exact isUpToDate_log H pr tj false e.now s
-        · have := runBody_log Cfg.fixed H pr j tj false e (isUpToDate H pr tj false e.now s).1
-          rw [isUpToDate_log] at this
-          exact this
+        cases hce : checkErr tj e s.files with
+        | true => left; rw [invoke_run_err Cfg.fixed H pr htj e s hce]
+        | false =>
+          rw [invoke_run Cfg.fixed H pr htj e s hce]
+          split
+          · left; exact isUpToDate_log H pr tj false e.now s
+          · have := runBody_log Cfg.fixed H pr j tj false e (isUpToDate H pr tj false e.now s).1
+            rw [isUpToDate_log] at this
+            exact this
       | force =>
         rw [invoke_force Cfg.fixed H pr htj]
         exact runBody_log Cfg.fixed H pr j tj false e s
